@@ -453,7 +453,12 @@ func phaseCase(c PhaseCase, st *ev.Stats) error {
 				}
 				queued++
 			} else if r != am.Canceled {
-				return fmt.Errorf("flood mutation #%d %s beyond QueueLimit %d returned %v, want Canceled", i, c.Flood[i], c.Limit, r)
+				if c.Flood[i].Op == "add" && has(c.Flood[i].States, am.StateException) {
+					// "one pending Exception excepted": an Add that carries Exception is let in
+					queued++
+					continue
+				}
+				return fmt.Errorf("flood mutation #%d %s beyond QueueLimit %d returned %v, want Canceled (Exception is not active)", i, c.Flood[i], c.Limit, r)
 			}
 		}
 		txs, _ := run.Tracer.Snapshot()
@@ -494,7 +499,7 @@ func TestPhases(t *testing.T) {
 			c.Limit = rapid.IntRange(1, 4).Draw(t, "limit")
 			n := rapid.IntRange(c.Limit, c.Limit+4).Draw(t, "floodN")
 			for i := 0; i < n; i++ {
-				s := gen.GenStep(t, sc, gen.HistoryOpts{Ops: []string{"add", "remove", "set"}, NoDup: true}, fmt.Sprintf("f%d", i))
+				s := gen.GenStep(t, sc, gen.HistoryOpts{Ops: []string{"add", "remove", "set"}, NoDup: true, WithException: true}, fmt.Sprintf("f%d", i))
 				s.Args = true // args switch duplicate suppression off
 				c.Flood = append(c.Flood, s)
 			}
